@@ -71,6 +71,22 @@ fn main() {
                 std::process::exit(2);
             }
         }
+        "selftest" if args.get(2).map(|s| s == "pools").unwrap_or(false) => {
+            let t = std::time::Instant::now();
+            let pool = walleye::workload::forced_special_pool();
+            let mut kinds: std::collections::BTreeMap<&str, usize> = Default::default();
+            for x in pool {
+                *kinds.entry(x.kind).or_default() += 1;
+            }
+            println!("forced-special pool: {:?} in {:?}", kinds, t.elapsed());
+            for x in pool.iter().take(3) {
+                println!("  {} {}", x.kind, x.pos.fen());
+            }
+            println!("forced-move pool: {}", walleye::workload::forced_move_pool().len());
+            if kinds.get("only-move-ep-of-checking-pawn").copied().unwrap_or(0) < 8 {
+                std::process::exit(2);
+            }
+        }
         "selftest" if args.get(2).map(|s| s == "fidelity").unwrap_or(false) => {
             let bin = args.get(3).cloned().unwrap_or_else(|| usage());
             let n: u64 = args.get(4).and_then(|s| s.parse().ok()).unwrap_or(200);
